@@ -256,3 +256,39 @@ Print Assumptions C05_best_mode_self_join_before_F12.
 Print Assumptions C05_self_join_shape_before_F12.
 Print Assumptions C05_self_join_witness_before_F12.
 Print Assumptions C05_no_self_join_witness.
+
+(* ==================================================================================================================================
+   APPENDED: THE WHOLE PROGRAM (model/Program.v: program_files cl ref_rows qry_rows = the data lines of every XMAP file from the rows of the two
+   CMAP files and the command line; proofs/ProgramProofs2.v).  NO hypothesis on the files or the command line: whenever the program returns,
+     line_qid line        := the second tab-separated field of the data line, read as an integer (QryContigID as an independent reader takes it)
+     qids_ascending lines := the QryContigID fields of the lines are integers in STRICTLY ascending order (hence: at most one record per query)
+   hold for the main file of every mode, for _1 of `separate` (second pass), for _1 and _2 of `all` (first / second pass) — exactly the files
+   C05_unique_query names.  _1 of `joined` (the rows that were not joined) is not ascending and is not claimed to be: at most two records per query.
+   C05_program_file_names: which files a mode writes. *)
+From Coq Require Import String.
+Require Import Wiring Cmap Xmap Program ProgramProofs1 ProgramProofs2.
+Require ProgramExamples.
+
+Theorem C05_program_ids_ascending cl rr qr files : program_files cl rr qr = Ok files ->
+  (forall lines, In (""%string, lines) files -> qids_ascending lines) /\
+  (cl_mode cl = Separate \/ cl_mode cl = All_ -> forall sfx lines, In (sfx, lines) files -> qids_ascending lines) /\
+  (cl_mode cl = Joined -> forall lines, In ("_1"%string, lines) files ->
+     exists ids, map line_qid lines = map Some ids /\ forall c, (count_occ Z.eq_dec ids c <= 2)%nat).
+Proof. exact (program_ids_ascending cl rr qr files). Qed.
+
+Theorem C05_program_file_names cl rr qr files : cmap_ok (cl_rids cl) rr -> cmap_ok (cl_qids cl) qr -> program_files cl rr qr = Ok files ->
+  map fst files = match cl_mode cl with Best => [""] | Separate => [""; "_1"] | Joined => [""; "_1"] | All_ => [""; "_1"; "_2"] end%string.
+Proof. exact (fun H1 H2 => program_file_names cl rr qr H1 H2 files). Qed.
+
+(* non-vacuity: the run of proofs/ProgramExamples.v (query molecules 7, 9 (no label), 3 in this order in the file): the QryContigID column of
+   every file of every mode; `best` and `separate` list molecule 3 before molecule 7 *)
+Example C05_program_nonvacuous :
+  let ids m := match program_files (ProgramExamples.px_cl m) ProgramExamples.px_rr ProgramExamples.px_qr with
+               | Ok files => Some (map (fun f => (fst f, map line_qid (snd f))) files) | Err => None end in
+  ids Best = Some [(""%string, [Some 3; Some 7])] /\
+  ids Separate = Some [(""%string, [Some 3; Some 7]); ("_1"%string, [Some 7])] /\
+  ids Joined = Some [(""%string, [Some 7]); ("_1"%string, [Some 3])] /\
+  ids All_ = Some [(""%string, [Some 7]); ("_1"%string, [Some 3; Some 7]); ("_2"%string, [Some 7])].
+Proof. destruct ProgramExamples.px_files as (E1 & E2 & E3 & E4). cbv beta zeta. rewrite E1, E2, E3, E4. vm_compute. repeat split; reflexivity. Qed.
+Print Assumptions C05_program_ids_ascending.
+Print Assumptions C05_program_file_names.
